@@ -11,7 +11,7 @@ import (
 
 func init() { generators["C03"] = genC03 }
 
-var bmVocab = []string{"alpha", "beta", "gamma", "delta", "Fast", "index", " ", ",", "ﬁsh", "１２", "İ", "naïve", "x-y", "don't", "3.14"}
+var bmVocab = []string{"alpha", "beta", "gamma", "delta", "Fast", "index", " ", ",", "ﬁsh", "１２", "İ", "naïve", "x-y", "don't", "3.14", "ÀB", "ǅ", "㎏", "\t", "\n", "ＡＢ", "Ω", "ß"}
 
 func bmText(r *rand.Rand) string {
 	n := r.Intn(8)
@@ -43,7 +43,7 @@ func (in *interner) id(s string) int {
 	return v
 }
 func (in *interner) toks(text string) []int {
-	ts := comet.VerifTokenize(text)
+	ts := specTokens(text)
 	out := make([]int, len(ts))
 	for i, t := range ts {
 		out[i] = in.id(t)
@@ -227,7 +227,7 @@ func runBM25History(r *rand.Rand, nops int, allowReadd bool, t *Trace) *Case {
 			lnT := map[uint64]uint64{}
 			N := float64(st.NumDocs)
 			addLn := func(text string) {
-				for _, tk := range comet.VerifTokenize(text) {
+				for _, tk := range specTokens(text) {
 					if p, ok := st.Postings[tk]; ok {
 						df := float64(len(p))
 						x := (N-df+0.5)/(df+0.5) + 1.0
